@@ -92,7 +92,7 @@ def run(c):
         st = vf.tlc_generate("MC_Punch", cfg(total, skel), "punch-%d-%d" % (skel, total), timeout=6000, workers=14)
         c.add_tlc(st, "punched pairs from %s; generation" % what)
         trk = os.path.join(d, "trace-%d.ndjson" % skel)
-        vf.gv(["record-unify", st["out"], trk, summ], timeout=3000)
+        vf.gv(["record-unify", st["out"], trk, summ], timeout=3000, env={"GV_UNIFY_THIN": "4"} if (c.quick and skel >= 1) else None)
         s = json.load(open(summ))
         c.cov["unify-skel%d" % skel] = {k: s[k] for k in s if k != "crashed"}
         c.cov["inconclusive"] += s["crashes"]
